@@ -171,7 +171,9 @@ def run(rep, tier, root=None):
     if len(r2) != 1 or not isinstance(r2[0][1], tuple) or len(r2[0][1]) != 2:
         rep.unknown("T4.spectrum-definition", g.fq, "expected one path returning (mean, error)", g.where())
     else:
-        got = r2[0][1]
+        # frame counts are non-negative integers: n // 2 and int(n / 2) are the same number (int() is transparent here)
+        got = tuple(_floordiv_as_int(x) for x in r2[0][1])
+        r2 = [(r2[0][0], got)]
         want = IO.returns(ix.func(om.name, "tps"), [sd])[0][1]
         for k, label in ((0, "mean spectrum"), (1, "standard error")):
             check_degree(rep, "T3.quadratic", "%s[%s] ~ slope_data^2" % (g.fq, label), got[k], "slope_data", Fr(2), g.where(), label)
@@ -185,6 +187,7 @@ def run(rep, tier, root=None):
         rep.unknown("T5.frequency-axis", h.fq, "expected one path", h.where())
     else:
         want = IO.returns(ix.func(om.name, "time_axis"), [fr, nfr])[0][1]
+        r3 = [(r3[0][0], _floordiv_as_int(r3[0][1]))]
         check_equal(rep, "T5.frequency-axis", h.fq + " == fftfreq(n, 1/rate)[:n/2]", r3[0][1], want, h.where(), what="frequency axis")
         # same truncation in spectrum and axis
         if len(r2) == 1 and isinstance(r2[0][1], tuple):
@@ -201,6 +204,29 @@ def run(rep, tier, root=None):
     purity_obligations(rep, ix, [ix.func(SC, "calculate_structure_function"), ix.func(TP, "calc_slope_temporalps"), ix.func(TP, "get_tps_time_axis")],
                        "T6.pure", "the estimate would depend on earlier calls or change the data it is computed from")
     rep.floor("C19 obligations", len(rep.obligations), 9)
+
+
+def _floordiv_as_int(v):
+    """a // b  ->  a / b under the int()-transparent convention of this driver (non-negative frame counts)"""
+    if isinstance(v, tuple):
+        return tuple(_floordiv_as_int(x) for x in v)
+    if not isinstance(v, Rat):
+        return v
+
+    def f(a):
+        if isinstance(a, Fn) and a.name == "floordiv" and len(a.args) == 2 and all(isinstance(x, Rat) for x in a.args):
+            return _floordiv_as_int(a.args[0]) / _floordiv_as_int(a.args[1])
+        if isinstance(a, Fn) and a.name == "getitem" and isinstance(a.args[0], Rat):
+            idx = a.args[1]
+            def fi(x):
+                if isinstance(x, Rat):
+                    return _floordiv_as_int(x)
+                if isinstance(x, tuple):
+                    return tuple(fi(y) for y in x)
+                return x
+            return Rat.atom(Fn("getitem", (_floordiv_as_int(a.args[0]), fi(idx))))
+        return None
+    return v.subst(f)
 
 
 def _slice_upper(v):
